@@ -731,3 +731,107 @@ func (s *Sim) commitQuiet(t *txn) {
 		o.touched = false
 	}
 }
+
+// opBigBatch: one batch removal of several hundred relation targets together with their
+// children (the pooled slices of ark hold 256 items; the histories of the simulated world stay
+// below that). A world of its own; the oracle is the plain meaning of RemoveEntities.
+func (s *Sim) opBigBatch(op *Op) {
+	nPar := []int{120, 255, 256, 257, 300, 520}[abs(op.N)%6]
+	perPar := 1 + abs(op.E)%2
+	w := ecs.NewWorld([]int{1, 16, 1024}[abs(op.N/6)%3])
+	mp := ecs.NewMap1[T02](w)
+	mc := ecs.NewMap2[T03, T12](w)
+	var parents, children []ecs.Entity
+	grand := map[ecs.Entity]ecs.Entity{} // grandchild -> its target (a child, which survives the removal of the parents)
+	childrenFirst := op.E%3 == 0
+	for i := 0; i < nPar; i++ {
+		parents = append(parents, mp.NewEntity(&T02{V: uint64(i)}))
+	}
+	for i, p := range parents {
+		for k := 0; k < perPar; k++ {
+			children = append(children, mc.NewEntity(&T03{}, &T12{}, ecs.RelIdx(1, p)))
+		}
+		if childrenFirst && i%2 == 0 {
+			// a grandchild: a child that is a target itself
+			gt := children[len(children)-1]
+			gc := mc.NewEntity(&T03{}, &T12{}, ecs.RelIdx(1, gt))
+			children = append(children, gc)
+			grand[gc] = gt
+		}
+	}
+	keep := mp.NewEntity(&T02{V: 77}) // not selected when the batch asks for T03 or T12 only
+	calls := map[ecs.Entity]int{}
+	var fn func(ecs.Entity)
+	if op.N%2 == 0 {
+		fn = func(e ecs.Entity) { calls[e]++ }
+	}
+	s.C.Checks["batch.big_targets"]++
+	all := op.E%4 != 0
+	p, val := s.call(func() {
+		if all {
+			w.RemoveEntities(ecs.NewFilter0(w).Batch(), fn)
+		} else {
+			// the parents only: their children are detached, not removed
+			w.RemoveEntities(ecs.NewFilter1[T02](w).Batch(), fn)
+		}
+	})
+	if p {
+		s.violate("C04", "op.no_failure", "BigBatch", false, "RemoveEntities over %d relation targets and their children panicked: %v", nPar, val)
+		return
+	}
+	want := 0
+	if !all {
+		want = len(children)
+	}
+	bad := func(format string, args ...any) {
+		s.violate("C06", "batch.equiv", "BigBatch", false, "RemoveEntities over %d relation targets (%d children, whole world=%v): "+format, append([]any{nPar, len(children), all}, args...)...)
+	}
+	if got := w.Stats().Entities.Used; got != want {
+		s.violate("C02", "pool.count", "BigBatch", false, "after RemoveEntities over %d relation targets (%d children, whole world=%v) the world reports %d entities, expected %d", nPar, len(children), all, got, want)
+		return
+	}
+	for _, e := range parents {
+		if w.Alive(e) {
+			s.violate("C02", "pool.alive_exact", "BigBatch", false, "a removed relation target is still alive after the batch removal of %d targets", nPar)
+			return
+		}
+	}
+	if w.Alive(keep) {
+		bad("the one entity created after the children survived although it matches the batch")
+		return
+	}
+	for _, e := range children {
+		if w.Alive(e) == all {
+			bad("child %v alive=%v", e, w.Alive(e))
+			return
+		}
+		if !all {
+			if tg := mc.GetRelation(e, 1); tg != grand[e] {
+				s.violate("C04", "rel.target", "BigBatch", false, "after the batch removal of %d targets a child has target %v, expected %v", nPar, tg, grand[e])
+				return
+			}
+		}
+	}
+	if fn != nil {
+		exp := len(parents) + 1
+		if all {
+			exp += len(children)
+		}
+		if len(calls) != exp {
+			s.violate("C06", "batch.callback", "BigBatch/once", false, "RemoveEntities callback ran for %d distinct entities, expected %d", len(calls), exp)
+			return
+		}
+		for e, n := range calls {
+			if n != 1 {
+				s.violate("C06", "batch.callback", "BigBatch/once", false, "RemoveEntities callback ran %d times for %v", n, e)
+				return
+			}
+		}
+	}
+	q := ecs.NewFilter0(w).Query()
+	n := q.Count()
+	q.Close()
+	if n != want {
+		bad("a query over everything counts %d entities afterwards, expected %d", n, want)
+	}
+}
